@@ -572,3 +572,6 @@ def replay(w):
         finally:
             b.cleanup()
     return res.violations
+
+
+RULE += ' decode_varint at positions inside buffers of up to 33 bytes with truncated tails of 0..9 continuation bytes and complete varints of 5..10 bytes.'
